@@ -338,6 +338,32 @@ pub fn run(ctx: &mut RunCtx) -> Result<(), Violation> {
     }
     ctx.st.probe("openings_checked_against_unmasked_values");
 
+    // ---- a degenerate (zero) draw is still the caller's randomness: same script, same proof
+    {
+        let j = w.usize(14);
+        let zeros = vec![0u8; 64];
+        let env_a = ctx.env(&mut s);
+        let env_b = ctx.env(&mut s);
+        let mut r1 = ScriptedRng::with_subst(sc.rng_seed, vec![(j, zeros.clone())]);
+        let mut r2 = ScriptedRng::with_subst(sc.rng_seed, vec![(j, zeros)]);
+        let a = deploy::prove(&prover, &sc.prog, &sc.tape, &mut r1, PlonkVersion::V3, &env_a);
+        let b = deploy::prove(&prover, &sc.prog, &sc.tape, &mut r2, PlonkVersion::V3, &env_b);
+        ctx.st.fault("rng.zero_draw");
+        ctx.st.eval(sig ^ 0x400 ^ j as u64, true);
+        match (a, b) {
+            (Ok((pa, _)), Ok((pb, _))) => {
+                if proof_bytes(&pa) != proof_bytes(&pb) {
+                    return Err(fail(format!("two proofs under the same RNG script (draw {} = 0) differ: randomness from somewhere else than the caller's RNG", j)));
+                }
+                if r1.log.len() != 14 || r2.log.len() != 14 {
+                    return Err(fail(format!("with draw {} = 0 the prover drew {} / {} scalars instead of 14", j, r1.log.len(), r2.log.len())));
+                }
+            }
+            (Err(_), Err(_)) => {}
+            _ => return Err(fail(format!("proving under the same RNG script (draw {} = 0) succeeds once and fails once", j))),
+        }
+    }
+
     // ---- different randomness: nothing is shared
     {
         let mut rng = ScriptedRng::new(sc.rng_seed ^ 0xFFFF_0000_FFFF);
